@@ -398,9 +398,25 @@ def _main(tier):
                 raise RuntimeError("c19drive sweep failed:\n" + out[-3000:])
         else:
             summary = json.loads(out.strip().splitlines()[-1])
-            phase("sweep of the implementation")
             files = [os.path.join(sweepdir, "s.%d" % i) for i in range(shards)]
-            with ThreadPoolExecutor(max_workers=shards) as ex:
+            # corpus first: recorded interesting inputs, results recomputed now
+            cdir = os.path.join(VERIF, "corpus", PID)
+            corpus = []
+            if os.path.isdir(cdir):
+                for fn in sorted(os.listdir(cdir)):
+                    corpus += [l.strip() for l in open(os.path.join(cdir, fn)) if l.strip() and not l.startswith("#")]
+            if corpus:
+                pr = subprocess.run([drv, "replay"], input="\n".join(corpus) + "\n", stdout=subprocess.PIPE,
+                                    stderr=subprocess.PIPE, text=True)
+                if pr.returncode != 0:
+                    raise RuntimeError("c19drive replay of the corpus failed: " + pr.stderr[-500:])
+                cf = os.path.join(sweepdir, "corpus")
+                with open(cf, "w") as f:
+                    f.write(pr.stdout)
+                files.insert(0, cf)
+                summary["corpus_lines"] = len(corpus)
+            phase("sweep of the implementation")
+            with ThreadPoolExecutor(max_workers=len(files)) as ex:
                 rres = list(ex.map(lambda p: run_runner(ref, p, ["-domain"]), files))
                 gres = list(ex.map(lambda p: run_runner(g, p), files)) if g else []
             for mism, _, summ, bad in rres:
@@ -542,7 +558,8 @@ def _main(tier):
         "trusted_base": trusted,
         "axioms": r["axioms"],
         "translator_status": status,
-        "evaluations": int(summary.get("lines", 0)),
+        "evaluations": int(summary.get("lines", 0)) + int(summary.get("corpus_lines", 0)),
+        "corpus_lines": int(summary.get("corpus_lines", 0)),
         "evaluations_vs_rule": lines_ref,
         "evaluations_vs_generated_model": lines_gen,
         "evaluations_in_kernel": kernel_cases,
